@@ -117,4 +117,12 @@ def gen_registry(rng, tier):
         d += ["dereg %d svc1 10.0.1.%d 80 1" % (n, n), "reg %d svc1 10.0.2.%d 80 1" % (n, n)]
     d += ["settle 4000", "listall svc1"]
     cases.append(Case("registry-rolling-replacement", d, True, "boundary"))
+    # directed (both tiers): heart-beating HTTP clients; one deregisters right after a heartbeat (the owner flushes queued
+    # heartbeats to the other nodes only every 15 s), the other keeps beating; compared after the next heartbeat flush
+    b = ["up 3", "reg 1 svc2 10.0.0.1 80 1", "reg 2 svc2 10.0.0.2 80 1", "settle 1500",
+         "beat 2 svc2 10.0.0.2 80", "beat 1 svc2 10.0.0.1 80", "settle 300", "dereg 1 svc2 10.0.0.1 80 1"]
+    for _ in range(3):
+        b += ["settle 5000", "beat 2 svc2 10.0.0.2 80"]
+    b += ["settle 3000", "listall svc2"]
+    cases.append(Case("registry-heartbeat-then-deregister", b, True, "boundary"))
     return cases
